@@ -329,6 +329,16 @@ theorem outputList_spec (outs : List Nat) : ∀ (pos : List Nat) (outs2 : List N
       subst ht
       simp [ho, ih]
 
+theorem specOuts2_sub (ps : PSub) (g : Nat) (h : g ∈ specOuts2 ps) : g ∈ sgOuts ps := by
+  unfold specOuts2 at h
+  unfold sgOuts
+  cases hp : ps.sg.originalOutputPositions with
+  | none => rw [hp] at h; exact h
+  | some pos =>
+    rw [hp] at h
+    obtain ⟨p, _, hp2⟩ := List.mem_filterMap.mp h
+    exact List.mem_of_getElem? hp2
+
 theorem specOuts2_eq (ps : PSub) (outs2 : List Nat) (h : outputList ps.sg.originalOutputPositions (sgOuts ps) = .ok outs2) :
     specOuts2 ps = outs2 := by
   unfold specOuts2
@@ -365,13 +375,13 @@ structure SgFacts (d : Desc) (m : ModelT) (codes : List Code) (ps : PSub) (f : S
   info : ∀ p ∈ ps.ops, p.info.tableOk = true ∧ (p.ignored = false → p.info.inv.isSome = true)
 
 /-- the part of the writer's domain on which the Spec's reading of a subgraph and the writer's agree:
-* `outs`: every subgraph output (virtual outputs removed, original positions expanded) is a written tensor — the writer silently
-  drops an output that is neither an original input nor an operand of a written operator or of a Placeholder
-  (`if tens in self.tensor_map_sg`), the Spec reports `operand-count`;
+* `outs`: every subgraph output left after the virtual outputs were removed is named by the expanded output list (original
+  positions) or written anyway — since the repair C11-60 every remaining output is in the tensor table, and one that nothing names
+  would be reported as `unexplained-tensor`;
 * `plain`: a Placeholder has no operands or intermediates of its own (its operands would be written without any operator or
   interface list referring to them; the Spec reports `unexplained-tensor`) -/
 structure SgDomain (ps : PSub) : Prop where
-  outs : ∀ g ∈ specOuts2 ps, g ∈ sgSet ps
+  outs : ∀ g ∈ sgOuts ps, g ∈ specOuts2 ps ∨ g ∈ tensorSet ps.sg.originalInputs (sgOps ps) []
   plain : ∀ p ∈ ps.ops, p.placeholder = true → p.ignored = true → ∀ g, some g ∉ p.inputs ++ p.intermediates
 
 theorem subgraph_ok (d : Desc) (m : ModelT) (codes : List Code) (k : Nat) (ps : PSub) (f : SubGraphT)
@@ -385,7 +395,7 @@ theorem subgraph_ok (d : Desc) (m : ModelT) (codes : List Code) (k : Nat) (ps : 
     simp only [optList, Option.getD_some]
     refine forall₂_some (idxList_spec _ _ ?_)
     intro g hg
-    rw [mem_sgAll]; unfold sgSet; rw [mem_tensorSet]; exact Or.inl hg
+    rw [mem_sgAll]; unfold sgSet; rw [mem_tensorSet]; exact Or.inl (Or.inl hg)
   obtain ⟨i1, i2, _, i4⟩ := relList_ok s!"{s!"subgraph {k}"} inputs" (sgAll d.tensors ps) _ _ [] hin (by intro p hp; simp at hp)
   -- outputs
   have hout : List.Forall₂ (OperandOk (sgAll d.tensors ps)) ((specOuts2 ps).map some) (optList f.outputs) := by
@@ -393,9 +403,9 @@ theorem subgraph_ok (d : Desc) (m : ModelT) (codes : List Code) (k : Nat) (ps : 
     simp only [optList, Option.getD_some]
     refine forall₂_some (idxList_spec _ _ ?_)
     intro g hg
-    rw [mem_sgAll]
-    exact hd.outs g (by rw [specOuts2_eq ps outs2 l1]; exact hg)
-  obtain ⟨o1, o2, o3, _⟩ := relList_ok s!"{s!"subgraph {k}"} outputs" (sgAll d.tensors ps) _ _ (relIn k ps f).1 hout i2
+    rw [mem_sgAll]; unfold sgSet; rw [mem_tensorSet]
+    exact Or.inr (specOuts2_sub ps g (by rw [specOuts2_eq ps outs2 l1]; exact hg))
+  obtain ⟨o1, o2, o3, o4⟩ := relList_ok s!"{s!"subgraph {k}"} outputs" (sgAll d.tensors ps) _ _ (relIn k ps f).1 hout i2
   have i1' : (relIn k ps f).2 = [] := i1
   have o1' : (relOut k ps f).2 = [] := o1
   -- operators
@@ -505,8 +515,18 @@ theorem subgraph_ok (d : Desc) (m : ModelT) (codes : List Code) (k : Nat) (ps : 
       rw [mem_sgAll] at hgm
       unfold sgSet at hgm
       rw [mem_tensorSet] at hgm
+      have hgm' : g ∈ ps.sg.originalInputs ∨ ∃ op ∈ sgOps ps, (op.ignored = false ∨ op.placeholder = true) ∧ some g ∈ op.operands := by
+        rcases hgm with h | h
+        · exact h
+        · rcases hd.outs g h with h2 | h2
+          · obtain ⟨n, hn⟩ := o4 g (List.mem_map.mpr ⟨g, h2, rfl⟩)
+            exact (hno n (hR3 _ hn)).elim
+          · rw [mem_tensorSet] at h2
+            rcases h2 with h3 | h3
+            · exact h3
+            · simp at h3
       have hpl : g ∈ specPlaceholders ps := by
-        rcases hgm with hgi | ⟨op, hop, hkind, hgo⟩
+        rcases hgm' with hgi | ⟨op, hop, hkind, hgo⟩
         · obtain ⟨n, hn⟩ := i4 g (List.mem_map.mpr ⟨g, hgi, rfl⟩)
           exact (hno n (hR3 _ (o3 _ hn))).elim
         · by_cases hign : op.ignored = false
@@ -621,7 +641,7 @@ theorem write_sgFacts (d : Desc) (enum : List Code) (m : ModelT) (h : writeWith 
 /-! ## the domain, executable -/
 
 theorem sgDomain_of_B (ps : PSub) (h : sgDomainB ps = true) : SgDomain ps := by
-  unfold sgDomainB outsWrittenB placeholdersPlainB at h
+  unfold sgDomainB outsListedB placeholdersPlainB at h
   simp only [Bool.and_eq_true, List.all_eq_true, List.contains_iff_mem, Bool.or_eq_true, Bool.not_eq_true', beq_iff_eq] at h
   refine ⟨fun g hg => by simpa using h.1 g hg, ?_⟩
   intro p hp hpl hig g hg
